@@ -18,7 +18,7 @@ SHARDS = {"quick": 16, "thorough": 16}
 TIME_BUDGET = {"quick": 300, "thorough": 1800}
 FLOORS = {"quick": {"schedules": 4000, "opens": 15000, "wraparounds": 500, "line_preemptions_in_open": 4000, "distinct": 3000}, "thorough": {"schedules": 30000, "opens": 100000, "wraparounds": 4000}}
 
-STARTS = [0, 1, 0xFFFFFFFC, 0xFFFFFFFD, 0xFFFFFFFE, 0x7FFFFFFF, 0xFFFFFFFB]
+STARTS = [0, 1, 0xFFFFFFFC, 0xFFFFFFFD, 0xFFFFFFFE, 0x7FFFFFFF, 0xFFFFFFFB, 0xFFFFFFFF]     # (0xFFFFFFFF: the state right after the id 2^32-1 was handed out)
 
 
 def gen_cases(tier, seed):
